@@ -217,6 +217,16 @@ def m_format_exception_only(eng, args, kwargs, st, node):
     return [(st.alloc(HList(seq, ('str',))), st)]
 
 
+@func(_traceback.format_exception)
+def m_format_exception(eng, args, kwargs, st, node):
+    """traceback.format_exception(type, value, tb): some list of lines.  What the callers need to know about the lines that name
+    the doctest's pseudo file is a property of CPython's format and of how the traceback was produced; it is stated where it is
+    used (the precondition of repr_failure._alter_traceback_linenos) and assumed through the contract that calls this."""
+    eng.trusted_used.add('stdlib:traceback.format_exception (some list of lines)')
+    seq = eng.ctx.fresh('tb_text_lines', '(Seq String)')
+    return [(st.alloc(HList(seq, ('str',))), st)]
+
+
 @func(_traceback.format_tb)
 def m_format_tb(eng, args, kwargs, st, node):
     seq = eng.ctx.fresh('tb_lines', '(Seq String)')
